@@ -7,3 +7,5 @@ pub mod per;
 pub mod planar;
 pub mod rd;
 pub mod rle16;
+pub mod server;
+pub mod wire;
